@@ -52,6 +52,22 @@ func runC16(r *fw.Run, p *fw.Program) {
 	x.repr([]*c16Format{mp, cb, bs, be, as})
 	x.text()
 	x.xmlNS()
+	x.xmlOpts()
+	// toml/yaml decode results are normalised by gojqx.NormalizeFn (borrowed from C14.norm, NormalizeFn clauses)
+	{
+		sc := r.Scratch()
+		ru := sc.Rule("C14.norm", "", 0)
+		c14NormRec(&c14Ctx{r: sc, p: p}, ru)
+		r.Import(sc, "C14.norm", "C16.text.norm", "what the toml/yaml parsers hand back is turned into jq values element by element: every container loop of gojqx.NormalizeFn recurses on its element and produces exactly one output element per input element (C14.norm NormalizeFn obligations)", 4, nil)
+	}
+	// cbor half-precision floats go through mathx.expandF16ToF32 (borrowed from C02.f16)
+	{
+		sc := r.Scratch()
+		if c := newC02(sc, p); c != nil {
+			c.f16Rule()
+			r.Import(sc, "C02.f16", "C16.cbor.f16", "cbor major type 7 / 25 (half precision) is expanded exactly: sign, exponent rebias, fraction shift, subnormal normalisation with the implicit bit masked off, inf/nan (C02.f16 obligations)", 6, nil)
+		}
+	}
 }
 
 // runC16TextOnly runs only the text-decoder rules (borrowed by C07 for fromjson).
